@@ -160,7 +160,10 @@ cdef class LegacyRecordBatch:
             char* buf
         buf = <char*> self._buffer.buf
         while pos < buffer_len:
+            self._check_bounds(pos, LOG_OVERHEAD)
             length = <Py_ssize_t> hton.unpack_int32(&buf[pos + LENGTH_OFFSET])
+            if length < 0:
+                raise CorruptRecordException("Corrupted compressed message")
             pos += LOG_OVERHEAD + length
         if pos > buffer_len:
             raise CorruptRecordException("Corrupted compressed message")
@@ -171,7 +174,8 @@ cdef class LegacyRecordBatch:
             self, Py_ssize_t pos, Py_ssize_t size) except -1:
         """ Confirm that the slice is not outside buffer range
         """
-        if pos + size > self._buffer.len:
+        # NOTE: `size` is untrusted: it may be negative or overflow `pos + size`
+        if size < 0 or size > self._buffer.len - pos:
             raise CorruptRecordException(
                 "Can't read {} bytes from pos {}".format(size, pos))
 
@@ -222,6 +226,7 @@ cdef class LegacyRecordBatch:
         else:
             key = None
         # Read value
+        self._check_bounds(pos, VALUE_LENGTH)
         read_size = <Py_ssize_t> hton.unpack_int32(&buf[pos])
         pos += VALUE_LENGTH
         if read_size != -1:
